@@ -179,12 +179,14 @@ Proof.
     - apply (grid_round D j k t G HD0 ltac:(destruct HD as [-> | ->]; lia) HG53 Hspec). left. exact Ht.
     - apply (grid_round D j k t G HD0 ltac:(destruct HD as [-> | ->]; lia) HG53 Hspec). right. exact Ht.
     - (* exact tie between (j-1)*D and j*D: j is even, so the tie goes to j *)
-      assert (Hz2 : z = 2 * 2 ^ (T - e - 1)).
-      { unfold z. replace (T - e) with (Z.succ (T - e - 1)) by lia. apply Z.pow_succ_r.
-        assert (e = 52) by (unfold D in HD52; destruct He as [He1 He2]; destruct (Z.eq_dec e 52); [assumption|];
-                            assert (e = 53) by lia; subst e; rewrite H in HD52; cbn in HD52; lia). lia. }
+      assert (He52 : e = 52).
+      { destruct (Z.eq_dec e 52) as [He52|Hne52]; [exact He52|]. exfalso.
+        assert (He53 : e = 53) by lia. unfold D in HD52. rewrite He53 in HD52. cbn in HD52. lia. }
+      set (w := T - e - 1). assert (Hw : 0 <= w) by (unfold w; lia).
+      assert (Hz2 : z = 2 * 2 ^ w).
+      { unfold z. replace (T - e) with (Z.succ w) by (unfold w; lia). apply Z.pow_succ_r. exact Hw. }
       assert (Hev : Z.even j = true).
-      { unfold j. rewrite Hz2. replace (m * u * (2 * 2 ^ (T - e - 1))) with (2 * (m * u * 2 ^ (T - e - 1))) by ring.
+      { unfold j. rewrite Hz2. replace (m * u * (2 * 2 ^ w)) with (2 * (m * u * 2 ^ w)) by ring.
         rewrite Z.even_mul. reflexivity. }
       assert (Hk : k = j) by (unfold k; apply rne_div_tie_even; [exact HD0|rewrite HQjt; lia|exact Hev]).
       rewrite Hk. lia. }
